@@ -10,7 +10,9 @@ from specs import chem
 
 MODULES = ["contracts.ruledb"]
 ALPHABET = [("H2O", "O"), ("water", "O"), ("H2O", "OO"), ("C2H6O", "CCO"), ("C2H6O", "COC"), ("ether", "COC"), ("bad", "C(C"), ("NH4+", "[NH4+]"),
-            ("HO-", "[OH-]"), ("HCl", "Cl"), ("Cl-", "[Cl-]"), ("U", "[U]")]
+            ("HO-", "[OH-]"), ("HCl", "Cl"), ("Cl-", "[Cl-]"), ("U", "[U]"),
+            # well-formed strings that are not molecules (valence / aromaticity errors): invalid SMILES as well
+            ("CH20", "C(C)(C)(C)(C)C"), ("NH5", "[NH5]"), ("C4H4", "c1ccc1")]
 
 
 def inv(db):
@@ -130,7 +132,7 @@ def check(run):
     rnd = random.Random(run.seed)
     ops_alpha = [("add", f, s) for f, s in ALPHABET] + [("rm", f) for f in ("H2O", "C2H6O", "nope", "HCl")] + \
         [("bulk", [ALPHABET[3], ALPHABET[4], ALPHABET[9]]), ("bulk", [ALPHABET[0], ALPHABET[1], ALPHABET[6], ALPHABET[0]]),
-         ("bulk", [ALPHABET[7], ALPHABET[7]]), ("bulk", [])]
+         ("bulk", [ALPHABET[7], ALPHABET[7]]), ("bulk", []), ("bulk", [ALPHABET[12], ALPHABET[9], ALPHABET[13]])]
     fails, cases = [], 0
     L = 2 if run.tier == "quick" else 3
     seqs = list(itertools.product(ops_alpha, repeat=L))
